@@ -22,7 +22,8 @@ CLAIMED = {
              "maintain_size is a pure translation with zero fill; valid_region is the largest symmetric block of "
              "original pixels; maintain_data keeps every pixel with minimal symmetric padding; unselected/None axes "
              "untouched; negative origins wrap; odd_size/square guarantees. Tied to abel/tools/center.py by bit-exact "
-             "correspondence; fractional-origin conservation clauses are measured only.",
+             "correspondence; for fractional origins the order-1 (linear interpolation) shift is modelled and its exact conservation "
+             "of total intensity and first moment is proved (orders 2-5: measured).",
         note="Trusted: Lean kernel + standard axioms; model faithful as far as correspondence explores (shapes 1..8 "
              "quick / 1..12 thorough, all crops/axes, integer dtype, order=0 rounding); scipy.ndimage.shift (orders "
              "1-5, fractional origins) is outside the model and only measured (intensity, centroid).",
